@@ -46,6 +46,7 @@ class HoldAnalysis(RuleAnalysis):
         self.sources: list[ast.AST] = []
         self.problems: list[tuple[Any, str, str]] = []  # (node, kind, var)
         self.sync_timeouts = sync_timeouts
+        self.packet_vars: set[str] = set()  # names holding a *packet* (any Python value, None and falsy values included)
 
     def initial(self, fn: FunctionInfo):
         return [frozenset()]
@@ -108,6 +109,9 @@ class HoldAnalysis(RuleAnalysis):
             if src is not None:
                 if src not in self.sources:
                     self.sources.append(src)
+                nm = src.func.attr if isinstance(src.func, ast.Attribute) else ""
+                if nm in ("next", "recv_packet", "recv_packet_from", "receive"):
+                    self.packet_vars |= names
                 for k in killed:
                     self.problems.append((node, "killed", k))
                 return [(held - killed) | frozenset(names)]
@@ -191,6 +195,8 @@ class HoldAnalysis(RuleAnalysis):
         held: frozenset = fact
         if not held:
             return [fact], [fact]
+        if any(isinstance(n, ast.Name) and n.id in self.packet_vars for n in ast.walk(test)):
+            return [fact], [fact]  # a packet may legitimately be None / falsy: no emptiness refinement
         t = test
         neg = False
         while isinstance(t, ast.UnaryOp) and isinstance(t.op, ast.Not):
